@@ -1,7 +1,7 @@
 (* KVW wire entry points: histories of storage-level operations on the LMDB write model,
    and the executable statements (oracles) evaluated on the implementation's observations. *)
 From NR Require Import Lib.Base Lib.Nip01 Lib.Wire KVM.Engine KVM.Keys KVM.Scan
-     KVW.Types KVW.Entries KVW.Write KVW.PostSave KVW.Gc KVW.Oracles.
+     KVW.Types KVW.Entries KVW.Write KVW.PostSave KVW.Gc KVW.Queue KVW.Oracles.
 Open Scope string_scope. Open Scope list_scope. Open Scope Z_scope.
 
 Definition idx_of_name (s : pystr) : idx :=
@@ -42,39 +42,45 @@ Definition db_of_jv (v : jv) : kvdb :=
   map (fun kv => (as_str (nth 0 (as_arr kv) JNull),
                   match nth 1 (as_arr kv) JNull with JObj o => REvent (wevent_of_jv (JObj o)) | _ => RIndex end)) (as_arr v).
 
-Definition step (d : kvdb) (o : jv) : kvdb * jv :=
+(* one harness step on the shared state (committed keyspace, queue, in-flight ids).  "hold": true = the
+   writer thread is held at its transaction lock: the step only queues; any other step lets the writer
+   drain the whole queue afterwards *)
+Definition step (st : sstate) (o : jv) : sstate * jv :=
   let now := as_int (jfield "now" o) in
   let fault := opt_nat (jfield "fault" o) in
   let kill := opt_nat (jfield "kill" o) in
+  let hold := as_bool (jfield "hold" o) in
   let name := as_str (jfield "op" o) in
-  let finish (out : jv) (bc : bool) (ops : list wop) :=
-      let '(d', txns) := run_ops fault kill now d ops in
-      (d', jobj [("out", out); ("bcast", JBool bc); ("txns", JArr txns); ("db", jv_of_db d')]) in
+  let d := s_db st in
+  let finish (out : jv) (bc : bool) (st1 : sstate) :=
+      if hold then (st1, jobj [("out", out); ("bcast", JBool bc); ("txns", JArr []); ("db", jv_of_db (s_db st1))])
+      else let '(d', txns) := run_ops fault kill now (s_db st1) (s_queue st1) in
+           (mkS d' [] [], jobj [("out", out); ("bcast", JBool bc); ("txns", JArr txns); ("db", jv_of_db d')]) in
+  let queue (ops : list wop) := mkS d (s_queue st ++ ops) (s_inflight st) in
   if str_eqb name (pys "submit") then
     let valid := as_bool (jfield "valid" o) in
-    let '(a, bc, q) := add_event (fun _ => valid) now d (wevent_of_jv (jfield "event" o)) in
-    finish (jstr (match a with AckRaise => "raise" | AckTrue => "true" | AckDuplicate => "duplicate" end)) bc
-           (match q with Some op => [op] | None => [] end)
+    let '(a, bc, st1) := submit (fun _ => valid) now st (wevent_of_jv (jfield "event" o)) in
+    finish (jstr (match a with AckRaise => "raise" | AckTrue => "true" | AckDuplicate => "duplicate" end)) bc st1
   else if str_eqb name (pys "wadd") then      (* an "add" task put on the writer queue directly *)
-    finish (jstr "queued") false [OAdd (ctor now (wevent_of_jv (jfield "event" o)))]
-  else if str_eqb name (pys "del") then finish (jstr "queued") false [ODel (as_str (jfield "id" o))]
+    finish (jstr "queued") false (queue [OAdd (ctor now (wevent_of_jv (jfield "event" o)))])
+  else if str_eqb name (pys "del") then finish (jstr "queued") false (queue [ODel (as_str (jfield "id" o))])
   else if str_eqb name (pys "gc") then
-    let ops := gc_ops now d in finish (JInt (Z.of_nat (length ops))) false ops
+    let ops := gc_ops now d in finish (JInt (Z.of_nat (length ops))) false (queue ops)
   else if str_eqb name (pys "reindex") then
-    finish (jstr "queued") false [OReindex (idx_of_name (as_str (jfield "index" o))) (wevent_of_jv (jfield "event" o))]
+    finish (jstr "queued") false (queue [OReindex (idx_of_name (as_str (jfield "index" o))) (wevent_of_jv (jfield "event" o))])
   else if str_eqb name (pys "bulk") then
-    finish (jstr "queued") false [OBulk (idx_of_name (as_str (jfield "index" o))) (map opt_wevent (as_arr (jfield "events" o)))]
+    finish (jstr "queued") false (queue [OBulk (idx_of_name (as_str (jfield "index" o))) (map opt_wevent (as_arr (jfield "events" o)))])
   else if str_eqb name (pys "get") then
     finish (match get_event now d (as_str (jfield "id" o)) with
-            | GRaise => jstr "raise" | GNone => JNull | GEvent w => jv_of_wevent w end) false []
-  else finish JNull false [].
+            | GRaise => jstr "raise" | GNone => JNull | GEvent w => jv_of_wevent w end) false (queue [])
+  else finish JNull false (queue []).
 
-Fixpoint steps (d : kvdb) (l : list jv) : list jv :=
-  match l with [] => [] | o :: r => let '(d', j) := step d o in j :: steps d' r end.
+Fixpoint steps (st : sstate) (l : list jv) : list jv :=
+  match l with [] => [] | o :: r => let '(st', j) := step st o in j :: steps st' r end.
 
 Definition init_db : kvdb := [(tombstone, RIndex)].
 (* case: {ops: [...]} -> one observation per op *)
-Definition run_hist (v : jv) : jv := JArr (steps init_db (as_arr (jfield "ops" v))).
+Definition run_hist (v : jv) : jv := JArr (steps (mkS init_db [] []) (as_arr (jfield "ops" v))).
 
 (* ---- executable statements on the implementation's observations ----
    case: {ops: [...], obs: [{out, bcast, txns, db} per op]} -> per op the list of reports
@@ -95,8 +101,10 @@ Fixpoint check_steps (prev : kvdb) (ops obs : list jv) : list jv :=
           if is_replaceable_kind (w_kind e) || is_param_replaceable_kind (w_kind e) then lab "replace" (replace_report prev after e)
           else if w_kind e =? 5 then lab "delete" (delete_report prev after e)
           else lab "plain" (plain_report prev after e) in
+      let held := as_bool (jfield "hold" o) in
       let reports :=
-        if str_eqb name (pys "submit") then
+        if held then [lab "held" (unchanged_report prev after)]
+        else if str_eqb name (pys "submit") then
           let raw := wevent_of_jv (jfield "event" o) in
           let e := ctor now raw in
           let out := as_str (jfield "out" b) in
